@@ -119,6 +119,14 @@ Assign(D, S, v, e, x) ==
           THEN RunChange(D, S2, v, e, prev, S2.val[v][e], Hs(D, v, e, "C"))
           ELSE S2
 
+(* the same assignment when handing the update to a client fails (the client's callback raises): the value is stored, the update was
+   built and handed over, the exception leaves the setter before any Change event *)
+AssignFail(D, S, v, e, x) ==
+  IF ~TypeOK(D, v, x) THEN [S EXCEPT !.raised = TRUE]
+  ELSE LET r == IF D.vecs[v].kind = "switch" THEN ApplyRule(D, S, v, e, x) ELSE <<S, x>>
+           S1 == [r[1] EXCEPT !.val[v][e] = r[2]]
+       IN IF VEnabled(D, S1, v) THEN [PubSet(D, S1, v) EXCEPT !.raised = TRUE] ELSE Assign(D, S, v, e, x)
+
 (* raise_event for Write: returns <<state, vetoed>> *)
 RECURSIVE RunWrite(_, _, _, _, _, _, _)
 RunWrite(D, S, v, e, x, hs, vetoed) ==
@@ -181,6 +189,7 @@ OpGetProperties(D, S, target, name) == GetPropsOn(D, Fresh(S), DevSeq(D, target)
 
 (* driver-side operations *)
 OpAssign(D, S, v, e, x)   == Assign(D, Fresh(S), v, e, x)
+OpAssignFail(D, S, v, e, x) == AssignFail(D, Fresh(S), v, e, x)
 OpSetValue(D, S, v, e, x) == SetValue(D, Fresh(S), v, e, x)
 OpSetState(D, S, v, st)   == IF st \notin StateWords THEN [Fresh(S) EXCEPT !.raised = TRUE]
                              ELSE PubSet(D, [Fresh(S) EXCEPT !.vst[v] = st], v)
